@@ -578,6 +578,7 @@ int main(int argc, char **argv)
 	}
 	cf_leak_force = 1;
 	run_input("file:0:0", kind, M_NONE, 0, &in);
+	free(in.p);
 	return 0;
     }
     if (argc >= 4 && strcmp(argv[1], "show") == 0) {
